@@ -3,9 +3,321 @@ L1a: specification of `splitPg` (`split_off_lt`) under the tree invariants.
 -/
 import MstVerif.Proofs.Defs
 import Mathlib.Order.Defs.LinearOrder
+import Mathlib.Order.Basic
 
 namespace Mst
-variable {K V D : Type} [LinearOrder K]
+variable {K V D : Type}
+
+@[simp] theorem Pg.keys_none : (Pg.none : Pg K V D).keys = [] := by simp [Pg.keys, Pg.content]
+@[simp] theorem Pg.keys_some (L : Nat) (c : Option D) (n : Nd K V D) (h : Pg K V D) :
+    (Pg.some L c n h).keys = n.keys ++ h.keys := by simp [Pg.keys, Nd.keys, Pg.content]
+@[simp] theorem Nd.keys_nil : (Nd.nil : Nd K V D).keys = [] := by simp [Nd.keys, Nd.content]
+@[simp] theorem Nd.keys_cons (lt : Pg K V D) (k : K) (v : V) (tl : Nd K V D) :
+    (Nd.cons lt k v tl).keys = lt.keys ++ k :: tl.keys := by simp [Pg.keys, Nd.keys, Nd.content]
+
+theorem Nd.lastKey?_mem : ∀ n : Nd K V D, n ≠ .nil → ∃ k, n.lastKey? = some k ∧ k ∈ n.keys
+  | .nil, h => absurd rfl h
+  | .cons lt k v .nil, _ => ⟨k, by simp [Nd.lastKey?]⟩
+  | .cons lt k v (.cons lt2 k2 v2 tl2), _ => by
+    obtain ⟨k', h1, h2⟩ := Nd.lastKey?_mem (.cons lt2 k2 v2 tl2) (by simp)
+    refine ⟨k', ?_, ?_⟩
+    · simpa [Nd.lastKey?] using h1
+    · rw [Nd.keys_cons]; simp only [List.mem_append, List.mem_cons]; right; right; exact h2
+
+theorem Nd.firstKey?_mem : ∀ n : Nd K V D, n ≠ .nil → ∃ k, n.firstKey? = some k ∧ k ∈ n.keys
+  | .nil, h => absurd rfl h
+  | .cons lt k v tl, _ => ⟨k, by simp [Nd.firstKey?]⟩
+
+theorem LvPg_mono (lvl : K → Nat) {b b' : Nat} (hbb : b ≤ b') :
+    ∀ p : Pg K V D, LvPg lvl b p → LvPg lvl b' p
+  | .none, _ => by simp [LvPg]
+  | .some L c n h, hp => by
+    simp only [LvPg] at hp ⊢
+    exact ⟨by omega, hp.2⟩
+
+section
+variable [LinearOrder K]
+
+theorem assertT_ok {site : String} {b : Bool} (h : b = true) : assertT site b = .ok () := by
+  simp [assertT, h]
+
+theorem assertKeyLt_last (site : String) (n : Nd K V D) (key : K) (hn : n ≠ .nil)
+    (h : ∀ k ∈ n.keys, k < key) : assertKeyLt site n.lastKey? key = .ok () := by
+  obtain ⟨k, h1, h2⟩ := Nd.lastKey?_mem n hn
+  simp [assertKeyLt, h1, h k h2]
+
+theorem assertKeyGt_last (site : String) (n : Nd K V D) (key : K) (hn : n ≠ .nil)
+    (h : ∀ k ∈ n.keys, key < k) : assertKeyGt site n.lastKey? key = .ok () := by
+  obtain ⟨k, h1, h2⟩ := Nd.lastKey?_mem n hn
+  simp [assertKeyGt, h1, h k h2]
+
+theorem assertKeyGt_first (site : String) (n : Nd K V D) (key : K) (hn : n ≠ .nil)
+    (h : ∀ k ∈ n.keys, key < k) : assertKeyGt site n.firstKey? key = .ok () := by
+  obtain ⟨k, h1, h2⟩ := Nd.firstKey?_mem n hn
+  simp [assertKeyGt, h1, h k h2]
+
+theorem splitPg_step_allLt (key : K) (L : Nat) (c : Option D) (n : Nd K V D) (h a b : Pg K V D)
+    (hn : n ≠ .nil) (h1 : splitNd key n = .ok .allLt)
+    (h2 : assertKeyLt "page.rs:397" n.lastKey? key = .ok ())
+    (h3 : splitPg key h = .ok (a, b)) :
+    splitPg key (.some L c n h) = .ok (.some L (if b.isSome then Option.none else c) n a, b) := by
+  cases n with
+  | nil => exact absurd rfl hn
+  | cons lt k v tl =>
+    rw [splitPg.eq_def]
+    simp only [h1, h2, h3]
+
+theorem splitPg_step_atHead (key : K) (L : Nat) (c : Option D) (n g : Nd K V D) (h a : Pg K V D)
+    (hn : n ≠ .nil) (h1 : splitNd key n = .ok (.atHead a g))
+    (h2 : assertKeyGt "page.rs:377" n.firstKey? key = .ok ()) :
+    splitPg key (.some L c n h) =
+      .ok (a, .some L (if a.isSome then Option.none else c) g h) := by
+  cases n with
+  | nil => exact absurd rfl hn
+  | cons lt k v tl =>
+    rw [splitPg.eq_def]
+    simp only [h1, h2]
+
+theorem splitPg_step_mid (key : K) (L : Nat) (c : Option D) (n l g : Nd K V D) (h a : Pg K V D)
+    (hn : n ≠ .nil) (h1 : splitNd key n = .ok (.mid l a g))
+    (h2 : assertKeyGt "page.rs:450" g.lastKey? key = .ok ())
+    (h3 : ∀ Lh ch nh hh, h = .some Lh ch nh hh →
+        nh ≠ .nil ∧ Lh < L ∧ assertKeyGt "page.rs:457" nh.firstKey? key = .ok ())
+    (h4 : assertKeyLt "page.rs:474" l.lastKey? key = .ok ())
+    (h5 : ∀ La ca na ha, a = .some La ca na ha →
+        na ≠ .nil ∧ La < L ∧ assertKeyLt "page.rs:479" na.lastKey? key = .ok ()) :
+    splitPg key (.some L c n h) = .ok (.some L Option.none l a, .some L Option.none g h) := by
+  cases n with
+  | nil => exact absurd rfl hn
+  | cons lt k v tl =>
+    rw [splitPg.eq_def]
+    simp only [h1, h2, h4]
+    cases h with
+    | none =>
+      cases a with
+      | none => rfl
+      | some La ca na ha =>
+        obtain ⟨r1, r2, r3⟩ := h5 La ca na ha rfl
+        cases na with
+        | nil => exact absurd rfl r1
+        | cons => simp [assertT, r2, r3, Nd.isNil]
+    | some Lh ch nh hh =>
+      obtain ⟨q1, q2, q3⟩ := h3 Lh ch nh hh rfl
+      cases nh with
+      | nil => exact absurd rfl q1
+      | cons =>
+        cases a with
+        | none => simp [assertT, q2, q3, Nd.isNil]
+        | some La ca na ha =>
+          obtain ⟨r1, r2, r3⟩ := h5 La ca na ha rfl
+          cases na with
+          | nil => exact absurd rfl r1
+          | cons => simp [assertT, q2, q3, r2, r3, Nd.isNil]
+
+
+/-- What `splitNd` returns, under the invariants. -/
+def SplitNdSpec (lvl : K → Nat) (hc : HashCfg K V D) (key : K) (L : Nat) (n : Nd K V D) :
+    SplitRes K V D → Prop
+  | .allLt => ∀ k ∈ n.keys, k < key
+  | .atHead a g =>
+      n.content = a.content ++ g.content ∧ g ≠ .nil ∧ n.firstKey? = g.firstKey? ∧
+      (∀ k ∈ a.keys, k < key) ∧ (∀ k ∈ g.keys, key < k) ∧
+      LvPg lvl L a ∧ LvNd lvl L g ∧ CacheOKPg hc a ∧ CacheOKNd hc g ∧ (a = .none → g = n)
+  | .mid l a g =>
+      n.content = l.content ++ (a.content ++ g.content) ∧ l ≠ .nil ∧ g ≠ .nil ∧
+      (∀ k ∈ l.keys, k < key) ∧ (∀ k ∈ a.keys, k < key) ∧ (∀ k ∈ g.keys, key < k) ∧
+      LvNd lvl L l ∧ LvPg lvl L a ∧ LvNd lvl L g ∧
+      CacheOKNd hc l ∧ CacheOKPg hc a ∧ CacheOKNd hc g
+
+mutual
+theorem splitPg_spec' (lvl : K → Nat) (hc : HashCfg K V D) (key : K) :
+    ∀ (p : Pg K V D) (bound : Nat), LvPg lvl bound p → p.Sorted → key ∉ p.keys →
+      CacheOKPg hc p →
+      ∃ a b, splitPg key p = .ok (a, b) ∧
+        p.content = a.content ++ b.content ∧
+        (∀ k ∈ a.keys, k < key) ∧ (∀ k ∈ b.keys, key < k) ∧
+        LvPg lvl bound a ∧ LvPg lvl bound b ∧ CacheOKPg hc a ∧ CacheOKPg hc b ∧
+        (a = .none → b = p) ∧ (b = .none → a = p)
+  | .none, bound, _, _, _, _ => by
+    refine ⟨.none, .none, by simp [splitPg], ?_⟩
+    simp [Pg.content, LvPg, CacheOKPg]
+  | .some L c n h, bound, hlv, hs, hne, hco => by
+    simp only [LvPg] at hlv
+    obtain ⟨hLb, hnn, hlvn, hlvh⟩ := hlv
+    simp only [Pg.Sorted, Pg.keys_some, List.pairwise_append] at hs
+    obtain ⟨hsn, hsh, hnh⟩ := hs
+    simp only [Pg.keys_some, List.mem_append, not_or] at hne
+    simp only [CacheOKPg] at hco
+    obtain ⟨hcc, hcn, hch⟩ := hco
+    obtain ⟨r, hr, hspec⟩ := splitNd_spec' lvl hc key n L hlvn hsn hne.1 hcn
+    cases r with
+    | allLt =>
+      simp only [SplitNdSpec] at hspec
+      obtain ⟨a, b, hab, hcont, ha, hb, hlva, hlvb, hca, hcb, hnone1, hnone2⟩ :=
+        splitPg_spec' lvl hc key h L hlvh hsh hne.2 hch
+      refine ⟨_, _, splitPg_step_allLt key L c n h a b hnn hr
+        (assertKeyLt_last _ n key hnn hspec) hab, ?_⟩
+      refine ⟨by simp [Pg.content, hcont], ?_, hb, ?_, LvPg_mono lvl (by omega) b hlvb, ?_, hcb,
+        by simp, ?_⟩
+      · intro k hk
+        simp only [Pg.keys_some, List.mem_append] at hk
+        rcases hk with hk | hk
+        · exact hspec k hk
+        · exact ha k hk
+      · simp only [LvPg]; exact ⟨hLb, hnn, hlvn, hlva⟩
+      · cases b with
+        | none =>
+          have := hnone2 rfl
+          subst this
+          simp only [Pg.isSome, Bool.false_eq_true, if_false, CacheOKPg]
+          exact ⟨hcc, hcn, hch⟩
+        | some =>
+          simp only [Pg.isSome, if_true, CacheOKPg]
+          exact ⟨by simp, hcn, hca⟩
+      · intro hb0
+        have := hnone2 hb0
+        subst this; subst hb0
+        simp [Pg.isSome]
+    | atHead a g =>
+      simp only [SplitNdSpec] at hspec
+      obtain ⟨hcont, hgn, hfirst, ha, hg, hlva, hlvg, hca, hcg, hnone⟩ := hspec
+      have hkeys : n.keys = a.keys ++ g.keys := by simp [Pg.keys, Nd.keys, hcont]
+      obtain ⟨k0, hk0, hk0m⟩ := Nd.firstKey?_mem g hgn
+      have hk0n : k0 ∈ n.keys := by rw [hkeys]; exact List.mem_append_right _ hk0m
+      have hhigh : ∀ k ∈ h.keys, key < k := fun k hk =>
+        lt_trans (hg k0 hk0m) (hnh k0 hk0n k hk)
+      refine ⟨_, _, splitPg_step_atHead key L c n g h a hnn hr
+        (by rw [hfirst]; exact assertKeyGt_first _ g key hgn hg), ?_⟩
+      refine ⟨by simp [Pg.content, hcont], ha, ?_, LvPg_mono lvl (by omega) a hlva, ?_, hca, ?_,
+        ?_, by simp⟩
+      · intro k hk
+        simp only [Pg.keys_some, List.mem_append] at hk
+        rcases hk with hk | hk
+        · exact hg k hk
+        · exact hhigh k hk
+      · simp only [LvPg]; exact ⟨hLb, hgn, hlvg, hlvh⟩
+      · cases a with
+        | none =>
+          have := hnone rfl
+          subst this
+          simp only [Pg.isSome, Bool.false_eq_true, if_false, CacheOKPg]
+          exact ⟨hcc, hcn, hch⟩
+        | some =>
+          simp only [Pg.isSome, if_true, CacheOKPg]
+          exact ⟨by simp, hcg, hch⟩
+      · intro ha0
+        have := hnone ha0
+        subst this; subst ha0
+        simp [Pg.isSome]
+    | mid l a g =>
+      simp only [SplitNdSpec] at hspec
+      obtain ⟨hcont, hln, hgn, hl, ha, hg, hlvl, hlva, hlvg, hcl, hca, hcg⟩ := hspec
+      have hkeys : n.keys = l.keys ++ (a.keys ++ g.keys) := by simp [Pg.keys, Nd.keys, hcont]
+      obtain ⟨k0, hk0, hk0m⟩ := Nd.firstKey?_mem g hgn
+      have hk0n : k0 ∈ n.keys := by
+        rw [hkeys]; exact List.mem_append_right _ (List.mem_append_right _ hk0m)
+      have hhigh : ∀ k ∈ h.keys, key < k := fun k hk =>
+        lt_trans (hg k0 hk0m) (hnh k0 hk0n k hk)
+      refine ⟨_, _, splitPg_step_mid key L c n l g h a hnn hr
+        (assertKeyGt_last _ g key hgn hg) ?_ (assertKeyLt_last _ l key hln hl) ?_, ?_⟩
+      · intro Lh ch nh hh e
+        subst e
+        simp only [LvPg] at hlvh
+        refine ⟨hlvh.2.1, hlvh.1, assertKeyGt_first _ nh key hlvh.2.1 ?_⟩
+        intro k hk
+        exact hhigh k (by simp [hk])
+      · intro La ca na ha' e
+        subst e
+        simp only [LvPg] at hlva
+        refine ⟨hlva.2.1, hlva.1, assertKeyLt_last _ na key hlva.2.1 ?_⟩
+        intro k hk
+        exact ha k (by simp [hk])
+      refine ⟨by simp [Pg.content, hcont], ?_, ?_, ?_, ?_, ?_, ?_, by simp, by simp⟩
+      · intro k hk
+        simp only [Pg.keys_some, List.mem_append] at hk
+        rcases hk with hk | hk
+        · exact hl k hk
+        · exact ha k hk
+      · intro k hk
+        simp only [Pg.keys_some, List.mem_append] at hk
+        rcases hk with hk | hk
+        · exact hg k hk
+        · exact hhigh k hk
+      · simp only [LvPg]; exact ⟨hLb, hln, hlvl, hlva⟩
+      · simp only [LvPg]; exact ⟨hLb, hgn, hlvg, hlvh⟩
+      · simp only [CacheOKPg]; exact ⟨by simp, hcl, hca⟩
+      · simp only [CacheOKPg]; exact ⟨by simp, hcg, hch⟩
+theorem splitNd_spec' (lvl : K → Nat) (hc : HashCfg K V D) (key : K) :
+    ∀ (n : Nd K V D) (L : Nat), LvNd lvl L n → n.Sorted → key ∉ n.keys → CacheOKNd hc n →
+      ∃ r, splitNd key n = .ok r ∧ SplitNdSpec lvl hc key L n r
+  | .nil, L, _, _, _, _ => ⟨.allLt, by simp [splitNd], by simp [SplitNdSpec]⟩
+  | .cons lt k v tl, L, hlv, hs, hne, hco => by
+    simp only [LvNd] at hlv
+    obtain ⟨hlvlt, hlvk, hlvtl⟩ := hlv
+    simp only [Nd.Sorted, Nd.keys_cons, List.pairwise_append, List.pairwise_cons] at hs
+    obtain ⟨hslt, ⟨hktl, hstl⟩, hltk⟩ := hs
+    simp only [Nd.keys_cons, List.mem_append, List.mem_cons, not_or] at hne
+    obtain ⟨hnelt, hnek, hnetl⟩ := hne
+    simp only [CacheOKNd] at hco
+    obtain ⟨hclt, hctl⟩ := hco
+    by_cases hle : key ≤ k
+    · have hlt : key < k := lt_of_le_of_ne hle hnek
+      obtain ⟨a, b, hab, hcont, ha, hb, hlva, hlvb, hca, hcb, hnone1, hnone2⟩ :=
+        splitPg_spec' lvl hc key lt L hlvlt hslt hnelt hclt
+      refine ⟨.atHead a (.cons b k v tl), by simp [splitNd, hle, hab], ?_⟩
+      simp only [SplitNdSpec]
+      refine ⟨by simp [Nd.content, hcont], by simp, by simp [Nd.firstKey?], ha, ?_, hlva, ?_, hca,
+        ?_, ?_⟩
+      · intro k' hk'
+        simp only [Nd.keys_cons, List.mem_append, List.mem_cons] at hk'
+        rcases hk' with hk' | hk' | hk'
+        · exact hb k' hk'
+        · rw [hk']; exact hlt
+        · exact lt_trans hlt (hktl k' hk')
+      · simp only [LvNd]; exact ⟨hlvb, hlvk, hlvtl⟩
+      · simp only [CacheOKNd]; exact ⟨hcb, hctl⟩
+      · intro ha0; rw [hnone1 ha0]
+    · have hlt : k < key := not_le.mp hle
+      have hltkey : ∀ k' ∈ lt.keys, k' < key := fun k' hk' =>
+        lt_trans (hltk k' hk' k (by simp)) hlt
+      obtain ⟨r, hr, hspec⟩ := splitNd_spec' lvl hc key tl L hlvtl hstl hnetl hctl
+      cases r with
+      | allLt =>
+        refine ⟨.allLt, by simp [splitNd, hle, hr], ?_⟩
+        simp only [SplitNdSpec] at hspec ⊢
+        intro k' hk'
+        simp only [Nd.keys_cons, List.mem_append, List.mem_cons] at hk'
+        rcases hk' with hk' | hk' | hk'
+        · exact hltkey k' hk'
+        · rw [hk']; exact hlt
+        · exact hspec k' hk'
+      | atHead a g =>
+        refine ⟨.mid (.cons lt k v .nil) a g, by simp [splitNd, hle, hr], ?_⟩
+        simp only [SplitNdSpec] at hspec ⊢
+        obtain ⟨hcont, hgn, hfirst, ha, hg, hlva, hlvg, hca, hcg, hnone⟩ := hspec
+        refine ⟨by simp [Nd.content, hcont], by simp, hgn, ?_, ha, hg, ?_, hlva, hlvg, ?_, hca, hcg⟩
+        · intro k' hk'
+          simp only [Nd.keys_cons, Nd.keys_nil, List.mem_append, List.mem_cons,
+            List.not_mem_nil, or_false] at hk'
+          rcases hk' with hk' | hk'
+          · exact hltkey k' hk'
+          · rw [hk']; exact hlt
+        · simp only [LvNd]; exact ⟨hlvlt, hlvk, trivial⟩
+        · simp only [CacheOKNd]; exact ⟨hclt, trivial⟩
+      | mid l a g =>
+        refine ⟨.mid (.cons lt k v l) a g, by simp [splitNd, hle, hr], ?_⟩
+        simp only [SplitNdSpec] at hspec ⊢
+        obtain ⟨hcont, hln, hgn, hl, ha, hg, hlvl, hlva, hlvg, hcl, hca, hcg⟩ := hspec
+        refine ⟨by simp [Nd.content, hcont], by simp, hgn, ?_, ha, hg, ?_, hlva, hlvg, ?_, hca, hcg⟩
+        · intro k' hk'
+          simp only [Nd.keys_cons, List.mem_append, List.mem_cons] at hk'
+          rcases hk' with hk' | hk' | hk'
+          · exact hltkey k' hk'
+          · rw [hk']; exact hlt
+          · exact hl k' hk'
+        · simp only [LvNd]; exact ⟨hlvlt, hlvk, hlvl⟩
+        · simp only [CacheOKNd]; exact ⟨hclt, hcl⟩
+end
 
 /-- `split_off_lt` on a well-shaped, sorted, cache-consistent subtree not containing `key`:
 never panics, partitions the in-order content at `key`, and both parts keep every invariant. -/
@@ -16,13 +328,35 @@ theorem splitPg_spec (lvl : K → Nat) (hc : HashCfg K V D) (key : K) (bound : N
       p.content = a.content ++ b.content ∧
       (∀ k ∈ a.keys, k < key) ∧ (∀ k ∈ b.keys, key < k) ∧
       LvPg lvl bound a ∧ LvPg lvl bound b ∧ CacheOKPg hc a ∧ CacheOKPg hc b := by
-  sorry
+  obtain ⟨a, b, h1, h2, h3, h4, h5, h6, h7, h8, _⟩ := splitPg_spec' lvl hc key p bound hlv hs hne hco
+  exact ⟨a, b, h1, h2, h3, h4, h5, h6, h7, h8⟩
+
+theorem splitNd_all_lt (key : K) : ∀ (n : Nd K V D), (∀ k ∈ n.keys, k < key) →
+    splitNd key n = .ok .allLt
+  | .nil, _ => by simp [splitNd]
+  | .cons lt k v tl, h => by
+    have hk : k < key := h k (by simp)
+    have := splitNd_all_lt key tl (fun k' hk' => h k' (by simp [hk']))
+    simp [splitNd, not_le.mpr hk, this]
+
+theorem splitPg_all_lt' (lvl : K → Nat) (key : K) : ∀ (p : Pg K V D) (bound : Nat),
+    LvPg lvl bound p → (∀ k ∈ p.keys, k < key) → splitPg key p = .ok (p, .none)
+  | .none, _, _, _ => by simp [splitPg]
+  | .some L c n h, bound, hlv, hlt => by
+    simp only [LvPg] at hlv
+    obtain ⟨_, hnn, _, hlvh⟩ := hlv
+    have hn : ∀ k ∈ n.keys, k < key := fun k hk => hlt k (by simp [hk])
+    have hh : ∀ k ∈ h.keys, k < key := fun k hk => hlt k (by simp [hk])
+    have := splitPg_step_allLt key L c n h h .none hnn (splitNd_all_lt key n hn)
+      (assertKeyLt_last _ n key hnn hn) (splitPg_all_lt' lvl key h L hlvh hh)
+    simpa [Pg.isSome] using this
 
 /-- When every key is already below `key` the split returns the page itself, untouched
 (this is why the "second split" in `upsert_node` / `insert_intermediate_page` is a no-op). -/
 theorem splitPg_all_lt (lvl : K → Nat) (key : K) (bound : Nat)
     (p : Pg K V D) (hlv : LvPg lvl bound p) (hlt : ∀ k ∈ p.keys, k < key) :
-    splitPg key p = .ok (p, .none) := by
-  sorry
+    splitPg key p = .ok (p, .none) :=
+  splitPg_all_lt' lvl key p bound hlv hlt
 
+end
 end Mst
